@@ -193,6 +193,9 @@ def _field_cases(part: str, tier: str):
             yield {"dm": dm}
         for az, za in itertools.product([0.0, 0.1, 359.9, 123.456789], [0.0, 0.1, 89.999, 45.0]):
             yield {"azimuth": az, "zenith": za}
+        # the same physical angles given in other units
+        for unit, az, za in (("rad", 2.5, 0.75), ("arcmin", 600.0, 90.5), ("hourangle", 3.25, 1.5)):
+            yield {"azimuth": az, "zenith": za, "angle_unit": unit}
         for fr in FRAMES:
             yield {"frame": fr}
 
@@ -209,12 +212,12 @@ def _fields(wd, shard, ctx, res, only):
         res.evaluations += 1
         case = {"shard": shard, "inner": idx}
         kw = _base_kwargs(wd)
-        kw.update(upd)
+        kw.update({k: v for k, v in upd.items() if k != "angle_unit"})
         if "coord" in upd:
             kw["coord"] = SkyCoord(upd["coord"][0], upd["coord"][1], unit=(u.hourangle, u.deg))
         for k in ("azimuth", "zenith"):
             if k in upd:
-                kw[k] = Angle(upd[k] * u.deg)
+                kw[k] = Angle(upd[k], unit=getattr(u, upd.get("angle_unit", "deg")))
         try:
             h = Header(**kw)
             out = str(wd / "o.fil")
